@@ -600,7 +600,10 @@ def main(plugin) -> int:
         "wall_s": round(time.time() - t0, 2),
         "violations": len(new_viol) + (1 if rc and not new_viol else 0),
     }
-    write_json(os.path.join(ROOT, "evidence", f"{pid}.json"), ev)
+    # (runs against another tree -- seeded changes, scratch worktrees -- must not overwrite the
+    #  evidence of the real tree: VERIF_EVIDENCE_DIR redirects it)
+    write_json(os.path.join(os.environ.get("VERIF_EVIDENCE_DIR") or os.path.join(ROOT, "evidence"),
+                            f"{pid}.json"), ev)
     for l in lines_out:
         print(l)
     print(f"{pid} tier={args.tier} seed={seed}: theorems={n_thm} proofs_ok={ok_props and aud['ok']} "
